@@ -613,6 +613,12 @@ func (x *c18) runErrors() {
 		{"Linux", "", core.Files{Main: "*filter\n:FORWARD DROP\nCOMMIT\n", Raw: "foo\n"}, "unknown command"},
 		{"PAN-OS", `<config><devices><entry name="localhost.localdomain"><vsys><entry name="vsys1"></entry></vsys></entry></devices></config>`,
 			core.Files{Main: "", Raw: `<config><devices><entry name="localhost.localdomain"><vsys><entry name="vsys1"><rulebase><security><rules><entry name="r1"><action>allow</action></entry></rules></security></rulebase></entry></vsys></entry></devices></config>`}, "forbidden rule name"},
+		{"PAN-OS", `<config><devices><entry name="localhost.localdomain"><vsys><entry name="vsys1"></entry></vsys></entry></devices></config>`,
+			core.Files{Main: `<config><devices><entry name="localhost.localdomain"><vsys><entry name="vsys1"></entry></vsys></entry></devices></config>`,
+				Raw: `<config><devices><entry name="other-device"><vsys><entry name="vsys1"><rulebase><security><rules><entry name="raw1"><action>allow</action><from><member>z1</member></from><to><member>z2</member></to><source><member>any</member></source><destination><member>any</member></destination><service><member>any</member></service><application><member>any</member></application></entry></rules></security></rulebase></entry></vsys></entry></devices></config>`}, "raw file for another device entry"},
+		{"PAN-OS", `<config><devices><entry name="localhost.localdomain"><vsys><entry name="vsys1"></entry></vsys></entry></devices></config>`,
+			core.Files{Main: `<config><devices><entry name="localhost.localdomain"><vsys><entry name="vsys1"></entry></vsys></entry></devices></config>`,
+				V6: `<config><devices><entry name="other-device"><vsys><entry name="vsys1"><rulebase><security><rules><entry name="v6r1"><action>allow</action><from><member>z1</member></from><to><member>z2</member></to><source><member>any</member></source><destination><member>any</member></destination><service><member>any</member></service><application><member>any</member></application></entry></rules></security></rulebase></entry></vsys></entry></devices></config>`}, "IPv6 file for another device entry"},
 		{"NSX", "", core.Files{Main: "", Raw: `{"groups":[{"id":"other-g1","expression":[{"id":"id","resource_type":"IPAddressExpression","ip_addresses":["10.1.1.1"]}]}]}`}, "forbidden group name"},
 		{"NSX", "", core.Files{Main: "", Raw: `{"policies":[{"id":"Netspoc-v1","rules":[{"id":"r1","action":"ALLOW","sequence_number":1,"source_groups":["ANY"],"destination_groups":["ANY"],"services":["ANY"],"scope":["/infra/tier-0s/v1"],"direction":"OUT"}]}]}`}, "forbidden rule name"},
 	}
